@@ -41,6 +41,11 @@ def run(tier, seed):
             for acc in ("kurtosis", "estimate"):
                 mr.check_accessor(pr, cr, ty, f, acc, n_cases(1, kurt_spec, extra_hyps=rz), mks)
     obs = pr.obs
+    import envelope
+    obs += envelope.guard_moments("C03", "Kurtosis", ["mean", "population_variance", "sample_variance", "error_mean", "skewness", "kurtosis"],
+                                  "src/moments/kurtosis.rs::Kurtosis (add-only histories)")
+    obs += envelope.guard_moments("C03", "Skewness", ["mean", "population_variance", "sample_variance", "error_mean", "skewness"],
+                                  "src/moments/skewness.rs::Skewness (add-only histories)")
     obs += vl.run_lemmas("C03", ["lemma_fold", "swap", "realizable", "bridge", "real_sq"])
     meta = {
         "level": "proof",
@@ -54,8 +59,8 @@ def run(tier, seed):
         "trusted_base": ["rsx + RS executor (own code)", "sympy polynomial arithmetic", "z3 5.1 nlsat", "Verus (history lemma)"],
         "assumptions": [A_REAL, A_INT, A_LIB, A_REALIZABLE,
                         "lifting to every sequence: Verus lemma_fold over the power-sum monoid (order 4)",
-                        "the forward-error envelope is not decided (A-REAL)"],
+                        "the forward-error envelope is not decided (A-REAL); a BOUNDED known-answer corpus (envelope_guard) exercises it on ill-conditioned samples"],
         "explanation": "Terriberry updates proved against M3/M4 of the enlarged summary for arbitrary symbolic summaries; accessors against the textbook formulas with square roots as r >= 0, r^2 = x.",
     }
     from confirm_rs import confirm_moment
-    return obs, meta, confirm_moment
+    return obs, meta, lambda ob: envelope.confirm_from_cex(ob) or confirm_moment(ob)
